@@ -852,6 +852,11 @@ func genMon(seed uint64, tier, mode string) *Script {
 		{Idx: 1, Addr: peerAddr(1), RouterID: peerRID(1), Kind: "ebgp", AS: pick(g, []uint32{65002, 70000, 4200000001}), Families: fams, AddPathRecv: mode != "noaddpath" && g.p(35)},
 		{Idx: 2, Addr: peerAddr(2), RouterID: peerRID(2), Kind: pick(g, []string{"ibgp", "ebgp"}), AS: 65003, Families: []string{"ipv4-unicast"}, NoAS4: g.p(50)},
 	}
+	if g.p(40) {
+		// a graceful-restart neighbour: its sessions end with the routes retained, and come back
+		// with the same (or fewer) routes and End-of-RIB
+		sc.Peers[0].GR = GRCfg{Enabled: true, RestartTime: 120, Families: fams}
+	}
 	if sc.Peers[2].Kind == "ibgp" {
 		sc.Peers[2].AS = sc.Global.AS
 		if sc.Global.AS > 65535 {
@@ -956,6 +961,8 @@ func genMon(seed uint64, tier, mode string) *Script {
 						pid = uint32(g.rng(1, 2))
 					}
 					ops = append(ops, Op{Kind: "wd", Actor: i, Delay: d, Family: fam, Prefix: pfx, PathID: pid})
+				case r < 85 && c.GR.Enabled:
+					ops = append(ops, Op{Kind: "grflap", Actor: i, Delay: d, Arg: pick(g, []string{"reset", "close"}), N: g.rng(0, 3000), Count: pick(g, []int{0, 0, 1, 2})})
 				case r < 85:
 					ops = append(ops, Op{Kind: "down", Actor: i, Delay: d, Arg: pick(g, []string{"reset", "close", "notify"})})
 					ops = append(ops, Op{Kind: "up", Actor: i, Delay: g.rng(0, 3000)})
@@ -1150,6 +1157,42 @@ func monOp(w *simWorld, actor int, op *Op) {
 			}
 		}
 		st.touch(w)
+	case "grflap":
+		// a graceful-restart neighbour loses its session and comes back: it announces what it
+		// had announced before (all but the first Count routes), then End-of-RIB
+		p := w.peers[actor]
+		if !p.cfg.GR.Enabled || !p.isUp() {
+			return
+		}
+		sent := p.snapshotSent()
+		if !p.dropSession(op.Arg) {
+			return
+		}
+		p.waitDown(5 * time.Second)
+		time.Sleep(time.Duration(op.N) * time.Millisecond)
+		if r := p.connectPassive(false, 12*time.Second); !r.ok {
+			w.logf("p%d reconnect failed: %s", actor, r.reason)
+			w.probe("connect_failed")
+			return
+		}
+		var keys []viewKey
+		for k := range sent {
+			keys = append(keys, k)
+		}
+		sort.Slice(keys, func(i, j int) bool { return keys[i].String() < keys[j].String() })
+		p.mu.Lock()
+		p.sent = map[viewKey]*annRoute{}
+		p.mu.Unlock()
+		for i, k := range keys {
+			if i < op.Count {
+				continue // not announced again: removed with the stale routes at End-of-RIB
+			}
+			p.announce(sent[k])
+		}
+		for _, f := range p.families() {
+			p.write(buildEOR(f))
+		}
+		w.probe("gr_flap_reannounced")
 	default:
 		worldOp(w, actor, op)
 		st.touch(w)
